@@ -44,7 +44,7 @@ fn vq_c18_replay_detected_authenticate() {
     kani::cover!(true, "reach:end");
 }
 
-//@ harness props=C18 tier=thorough level=bounded timeout=1800 bound="datagram <= 64 bytes (secret_control::MAX_PACKET_SIZE; longest packet 50), contents and length symbolic"
+//@ harness props=C18 tier=thorough level=bounded timeout=2400 bound="datagram <= 64 bytes (secret_control::MAX_PACKET_SIZE; longest packet 50), contents and length symbolic"
 //@ fn packet::secret_control::replay_detected::Packet::decode
 //@ fn packet::secret_control::replay_detected::Packet::authenticate
 //@ fn packet::secret_control::decoder::header_len
@@ -95,36 +95,34 @@ fn vq_c18_replay_detected_decode_total_and_exact() {
     kani::cover!(true, "reach:end");
 }
 
-//@ harness props=C18 tier=thorough level=full timeout=1800
+// Round trip, compositionally: `..._decode_total_and_exact` shows decode == the independent wire-layout oracle on every
+// input (and that authenticate verifies exactly header / tag); this harness shows that the oracle reads back, from
+// encode's output, exactly the fields that were encoded, and that the MAC was computed over exactly that header into
+// exactly that tag.  Hence decode(encode(v)) == v and the sealed packet authenticates under the same key.
+//@ harness props=C18 tier=thorough level=full timeout=2400
 //@ fn packet::secret_control::replay_detected::ReplayDetected::encode
 //@ fn packet::secret_control::encoder::finish
-//@ fn packet::secret_control::replay_detected::Packet::decode
-//@ fn packet::secret_control::replay_detected::Packet::authenticate
 #[kani::proof]
 #[kani::unwind(20)]
-fn vq_c18_replay_detected_round_trip() {
+fn vq_c18_replay_detected_encode_wire_image() {
     // all fields full-domain (wire version: only 0 is encodable, see WireVersion::encode's debug_assert and decode)
     let mut value = any_value();
     value.wire_version = WireVersion(0);
-    let key = ChecksumKey { key: kani::any() };
+    let key = ChecksumKey::new();
     let mut buf = [0u8; BUF];
+    let base = buf.as_ptr();
     let len = value.encode(EncoderBuffer::new(&mut buf), &key);
-    let snapshot = buf;
-    let e = oracle_parse(&snapshot, len, BASE_TAG, true);
+    let e = oracle_parse(&buf, len, BASE_TAG, true);
     assert!(e.is_some(), "C18/replay_detected.encode/wire_image_is_well_formed");
     let e = e.unwrap();
-    assert!(len == e.header_len + TAG_LEN && len <= 50, "C18/replay_detected.encode/returned_len_is_header_plus_tag");
-    assert!(e.id == id_of(&value.credential_id) && e.has_queue == value.queue_id.is_some()
-                && (!e.has_queue || Some(e.queue_id) == opt_u64(value.queue_id)) && e.key_id == value.rejected_key_id.as_u64(),
-            "C18/replay_detected.encode/wire_image_carries_the_fields");
-    let (packet, rest) = Packet::decode(DecoderBufferMut::new(&mut buf[..len])).unwrap();
-    assert!(rest.is_empty(), "C18/replay_detected.round_trip/nothing_left_over");
-    let decoded = packet.authenticate(&key);
-    assert!(decoded.is_some(), "C18/replay_detected.round_trip/sealed_packet_authenticates");
-    let d = decoded.unwrap();
-    assert!(id_of(&d.credential_id) == id_of(&value.credential_id) && d.wire_version == value.wire_version
-                && opt_u64(d.queue_id) == opt_u64(value.queue_id) && d.rejected_key_id == value.rejected_key_id,
-            "C18/replay_detected.round_trip/decode_encode_is_identity");
+    assert!(len == e.header_len + TAG_LEN && len <= 50 && len <= MAX_PACKET_SIZE, "C18/replay_detected.encode/returned_len_is_header_plus_tag");
+    assert!(e.id == id_of(&value.credential_id), "C18/replay_detected.encode/wire_image_carries_credential_id");
+    assert!(e.has_queue == value.queue_id.is_some() && (!e.has_queue || Some(e.queue_id) == opt_u64(value.queue_id)),
+            "C18/replay_detected.encode/wire_image_carries_queue_id");
+    assert!(e.key_id == value.rejected_key_id.as_u64(), "C18/replay_detected.encode/wire_image_carries_rejected_key_id");
+    assert!(key.sign_calls.get() == 1 && key.signed_header.get() == (base, e.header_len)
+                && key.signed_tag.get() == (unsafe { base.add(e.header_len) }, TAG_LEN),
+            "C18/replay_detected.encode/mac_computed_over_exactly_the_header_into_the_tag");
     kani::cover!(len == 50, "reach:longest_packet");
     kani::cover!(len == 35, "reach:shortest_packet");
     kani::cover!(true, "reach:end");
